@@ -136,7 +136,38 @@ NOT_YET = "check not built yet in this round (planned: bounded-exhaustive explor
 
 ALL = ["C%02d" % i for i in range(1, 30)]
 
+# What was added to each check's enumerated space after the seeded-change campaign (DESIGN.md §7);
+# appended to the level text so that the table above stays the original description.
+WIDENED = {
+    "C01": "Goal sets are closed under the renamings used to reduce programs; goals with two nested universes and with a hypothesis that shares the unknown with the goal.",
+    "C02": "Closed goals whose two arguments are each within a small size limit while their sizes add up beyond it.",
+    "C03": "Also enumerations on solvers left partially used (after a one-answer enumeration, after a solve); one-parameter fragments with impls in both declaration orders and witnesses one level deeper.",
+    "C04": "Sixth text family `coperm` (a cycle that returns with its unknowns permuted, coinductive and inductive, every order of the where-clauses).",
+    "C05": "Second family: three non-generic structs with every ordered field list over {N, P1, P2, P3} containing a cycle (<= 5/7 fields), goals in every order on one solver. Sites of history violations carry the direction of the change.",
+    "C06": "Hypotheses whose self type is a struct application (open and closed), a trait where-clause on a struct applied to Self, a one-trait cycle `X: Par<Self>`: 10 hypothesis sets x 9 conclusions x 5 parameter variants.",
+    "C07": "1438 programs: also a projection nested under a constructor whose normal form mentions the impl parameter, and a concrete impl told apart from the generic one by a where-clause only, declared before or after it.",
+    "C08": "Three structs whose tail field is a type parameter declared after a lifetime / const parameter.",
+    "C09": "After every (allowed) overflow panic ten goals are solved again on the same solver; the goal set has a hypothesis sharing the unknown with the goal.",
+    "C10": "Alphabet 4 (quick) / 5 (thorough) goals; the four-atom propositional fragment F0x; for SLG also 'enumerate the first answer of g' as unjudged state extenders; sites carry the direction of the change; replay re-executes the history.",
+    "C11": "Interrupted `Definite` guidance that differs from the full answer is itself checked against REF; corpus of three ground impls in every order.",
+    "C12": "Three retry orders after each crash: crashed goal first, other goals first, an answer enumeration first.",
+    "C13": "Also the associated-type and auto-trait text families, reordered at item level (every impl permutation, impls first, declarations reversed, everything reversed); answers decoded to item names.",
+    "C17": "Terms include an ADT over a lifetime and placeholders of equal index in different universes.",
+    "C18": "356 types over every constructor the filter has an arm for (fn definitions, closures, foreign types, applied associated/opaque types, four fn-pointer signatures, two placeholder lifetimes, an inference lifetime, an ADT over a lifetime); end-to-end comparison also on the text families (projections in argument position).",
+    "C19": "Every declaration order of every 3..5-subset of the specialization lattice T > S<T> > {S<A>, S<S<T>>} > S<S<A>>.",
+    "C20": "18-entry argument menu: the impl parameter as first / last tuple element and inside a two-parameter fundamental constructor.",
+    "C21": "Two-field structs in both field orders; every program also with all its impls #[upstream].",
+    "C22": "Bound lists naming one generic trait at two argument lists (one with a binding); fn definitions compared up to one-to-one renaming like other items.",
+    "C23": "Sequences of length >= 2 also with the recorded program printed after every goal.",
+    "C28": "Three product families over a two-position constructor (type / const / lifetime position); a solver assertion about the answer under construction counts as an ill-formed answer.",
+    "C29": "Lifetimes also include an unknown bound by exists inside the forall; equality by substitution is accepted only where the variance dictates outlives in both directions.",
+}
+
+
 def main():
+    for pid, extra in WIDENED.items():
+        if pid in CHECKS and extra not in CHECKS[pid]["text"]:
+            CHECKS[pid]["text"] = CHECKS[pid]["text"].rstrip() + " Widened after the seeded-change campaign: " + extra
     checks = []
     for pid in ALL:
         if pid not in CHECKS:
